@@ -51,8 +51,8 @@ PROPS = {
     # g.frompgn (parse group): the importer on ARBITRARY text (example files, exports, mutations, garbage) against the model
     # importer.  C15 itself speaks about the library's own exports only, so a difference there is a broken correspondence
     # (`corr`: reported with no-failing-input-found), not by itself a failing input of C15.
-    'C15': dict(groups=['pgn', 'parse'], ops={'g.pgn': ['tags', 'words', 'rt'], 'rx': ['sec', 'nsec', 'moves', 'n', 'res', 'rx'],
-                                             'g.frompgn': ['r', 'st', 'n', 'fen']}, corr_only={'g.frompgn'}),
+    'C15': dict(groups=['pgn', 'parse'], ops={'g.pgn': ['tags', 'words', 'rt', 'rtags'], 'rx': ['sec', 'nsec', 'moves', 'n', 'res', 'rx'],
+                                             'g.frompgn': ['r', 'st', 'n', 'fen', 'tags'], 'g.tag': ['r']}, corr_only={'g.frompgn'}),
     'C16': dict(groups=['parse'], ops={'pmove': ['r', 'rr']}, only_if={'pmove': ('r', 'ok')}),
     'C17': dict(groups=['tables'], ops={'tbl': ['v'], 'prim': ['v']}),
     'C18': dict(groups=['prims'], ops={'prim': ['v'], 'bb': ['list', 'cnt', 'lo', 'hi', 'alg', 'dbg']}),
